@@ -919,6 +919,19 @@ impl CatalogPersistence {
             catalog_offset
         );
 
+        // the length field sizes the allocation: it cannot exceed what the file holds
+        let file_len = file
+            .metadata()
+            .wrap_err("failed to read catalog file metadata")?
+            .len();
+        ensure!(
+            (catalog_length as u64) <= file_len.saturating_sub(HEADER_SIZE as u64),
+            "catalog length {} exceeds the {} bytes of the catalog file at '{}'",
+            catalog_length,
+            file_len,
+            path.display()
+        );
+
         let mut catalog_bytes = vec![0u8; catalog_length];
         file.read_exact(&mut catalog_bytes)
             .wrap_err("failed to read catalog data")?;
